@@ -63,3 +63,13 @@ Theorem C11_built_graph_wildcards : forall m g, wbuild m = Ok g -> acyclic_check
   forall x, In x (order_used o g) -> is_terminal (n_type (node_of g x)) = false ->
     (forall T, In T (n_wild (node_of g' x)) <-> reaches_wild g x T) /\ NoDup (n_wild (node_of g' x)).
 Proof. exact built_wildcards. Qed.
+
+(* 11. THE TIE for value semantics.  Model/WWeights.v keeps wildcard lists and weight maps as immutable values; the Go
+   code keeps them in slices and maps that can share storage.  Gen/Sites.v (regenerated from weighted_graph.go and
+   weighted_graph_builder.go on every run) lists every store of a list or map into a node or an edge with the
+   shape of what is stored: a copy, an append to the field itself, a literal, nil, make(..), or a local that only
+   ever holds a fresh allocation.  None stores another object's list or map as it is — with such a store a later
+   append could overwrite an entry of the other object (defect F13 was four of them). *)
+From Verif Require Import Gen.Sites.
+Theorem C11_no_store_shares_a_list_or_map : aliasing_stores = [] /\ (12 <= length store_sites)%nat.
+Proof. split; [vm_compute; reflexivity|vm_compute; repeat constructor]. Qed.
